@@ -53,6 +53,34 @@ def variants(prog, i):
     return out
 
 
+def record_table():
+    """template -> [(variant name, source)]; the first variant is the reference"""
+    names = [("a", "b"), ("start", "end"), ("zeta", "alpha"), ("lo", "hi"), ("b", "a")]
+    groups = {}
+    for tname in ("assign", "update", "param", "alias", "nested"):
+        vs = []
+        for f1, f2 in names:
+            anns = {"none": "", "same": f":{{{f1}:float, {f2}:float}}", "swapped": f":{{{f2}:float, {f1}:float}}"}
+            for aname, ann in anns.items():
+                lit = f"{{{f1} = 1.0, {f2} = 10.0}}"
+                if tname == "assign":
+                    src = f"fn dsp(){{\n  let r{ann} = {lit}\n  r.{f1} = 5.0\n  r.{f1} * 100 + r.{f2}\n}}\n"
+                elif tname == "update":
+                    src = f"fn dsp(){{\n  let r{ann} = {lit}\n  let s = {{r <- {f1} = 5.0}}\n  s.{f1} * 100 + s.{f2} + r.{f1} * 1000\n}}\n"
+                elif tname == "param":
+                    src = f"fn upd(r{ann}){{\n  r.{f1} = 5.0\n  r.{f1} * 100 + r.{f2}\n}}\nfn dsp(){{\n  upd({lit})\n}}\n"
+                elif tname == "alias":
+                    if aname == "none":
+                        continue
+                    src = f"type alias R = {ann[1:]}\nfn dsp(){{\n  let r:R = {lit}\n  r.{f1} = 5.0\n  r.{f1} * 100 + r.{f2}\n}}\n"
+                else:
+                    src = (f"fn dsp(){{\n  let r{ann} = {lit}\n  let q = {{inner = r, {f2} = 2.0}}\n  r.{f2} = 7.0\n"
+                           f"  q.inner.{f1} * 100 + q.inner.{f2} + q.{f2} * 1000 + r.{f2} * 10000\n}}\n")
+                vs.append((f"{f1}-{f2}-{aname}", src))
+        groups[tname] = vs
+    return groups
+
+
 def run(tier):
     chk = vlib.Check("C16", "model_checking", tier)
     vlib.build_harness()
@@ -119,6 +147,36 @@ def run(tier):
             lid = f"pin:{key}|{be}"
             records.append({"id": lid, "a": langpipe.side(oo[be], False), "b": langpipe.side(to[be], False), "cmpwords": False})
             meta[lid] = ({"src": c["src"], "original": c["original"], "transformation": "pinned"}, key, be)
+    # records (outside Lang): field names with different alphabetical orders x agreeing annotations that list the
+    # fields in either order, written as an annotation, an alias or a parameter type; every variant of a template
+    # computes the same numbers
+    groups = record_table()
+    rreqs = []
+    for gname, variants_ in groups.items():
+        for vname, src in variants_:
+            rreqs.append({"id": f"{gname}|{vname}", "src": src, "n": 3, "backends": ["vm", "wasm"], "sched": True})
+    rres = {req["id"]: (req, out, crash) for req, out, crash in vlib.run_harness("run", rreqs, timeout_per_req=20)}
+    for gname, variants_ in groups.items():
+        base_id = f"{gname}|{variants_[0][0]}"
+        _, bout, bcrash = rres[base_id]
+        if bcrash or bout is None or bout["vm"].get("status") != "ok":
+            raise vlib.ToolError(f"record table: the base variant {base_id} does not run: {bcrash or bout['vm']}")
+        for vname, src in variants_[1:]:
+            req, out, crash = rres[f"{gname}|{vname}"]
+            nprog += 1
+            key = vlib.canon_key(src)
+            if crash or out is None:
+                chk.violation(f"runtime process died on {gname}|{vname}: {crash}\n{src}", {"src": src}, key=key)
+                continue
+            for be in ("vm", "wasm"):
+                lid = f"rec:{gname}|{vname}|{be}"
+                a, b = langpipe.side(bout[be], False), langpipe.side(out[be], False)
+                for s_ in (a, b):
+                    if s_["status"] in ("reject", "error", "nodsp"):
+                        s_["status"] = "refused"
+                records.append({"id": lid, "a": a, "b": b, "cmpwords": False})
+                meta[lid] = ({"src": src, "original": variants_[0][1], "transformation": f"record variant {vname}"}, key, be)
+    chk.cov["record_variants"] = len(rreqs)
     fails = langpipe.validate_lockstep(chk, records, "c16")
     for lid, f in fails.items():
         case, key, be = meta[lid]
